@@ -114,6 +114,9 @@ def write_coqproject():
 def build_coq(targets=None, timeout=3000):
     """full .vo build through coq_makefile; targets: list of .vo paths relative to coq/ (None = all)"""
     os.makedirs(os.path.join(COQ, "gen"), exist_ok=True)
+    if not os.path.exists(os.path.join(COQ, "gen", "TypesGen.v")):
+        # C16's declarations are regenerated from the source by its check; make sure a first build has them
+        sh([sys.executable, os.path.join(VERIF, "tools", "rs2coq_types.py"), REPO])
     changed = write_coqproject()
     if changed or not os.path.exists(os.path.join(COQ, "Makefile")):
         sh("coq_makefile -f _CoqProject -o Makefile", cwd=COQ, check=True)
